@@ -175,7 +175,15 @@ func RunWorkload(seed int64, cfg WorkCfg, onPhase func(string)) *History {
 		return OK
 	})
 	// a slow call is held until 3 further requests were sent (logical), capped by wall-clock
+	var giantHold, giantRelease atomic.Bool
 	led.Hold = func(blk *Block) {
+		if giantHold.Load() {
+			dl := time.Now().Add(60 * time.Second)
+			for !giantRelease.Load() && time.Now().Before(dl) {
+				time.Sleep(time.Millisecond)
+			}
+			return
+		}
 		start := atomic.LoadInt64(&sent)
 		dl := time.Now().Add(400 * time.Millisecond)
 		for atomic.LoadInt64(&sent) < start+3 && time.Now().Before(dl) && !led.AllOK.Load() {
@@ -292,6 +300,68 @@ func RunWorkload(seed int64, cfg WorkCfg, onPhase func(string)) *History {
 			wg.Wait()
 			mode.Store("ok")
 		}
+	}
+	if cfg.Targeted && cfg.ShapeMix && cfg.Writer.ChannelsSample == 1 && cfg.Writer.RetryAttempts == 1 && cfg.Writer.DBBulk == 0 {
+		// one INSERT block of more than 50 MiB: the samples service is kept busy by a held INSERT while seven clients
+		// push eight lines of 1 MiB each; everything that arrived in the meantime goes out as the next block.
+		if onPhase != nil {
+			onPhase("giant-block")
+		}
+		r := rand.New(rand.NewSource(int64(h64(fmt.Sprintf("%d/%s/giant", seed, cfg.Stream)) >> 1)))
+		mkG := func(tag string, entries, pad int) *Item {
+			id := fmt.Sprintf("g%s%d", tag, atomic.AddInt64(&itemSeq, 1))
+			lc := gen.NewLogCase(r, gen.LogOpts{ID: id, Proto: "loki-json-values", Streams: 1, MaxEntries: 1, BaseNs: int64(1700000000) * 1e9, Pad: pad})
+			st := &lc.Streams[0]
+			for len(st.Entries) < entries {
+				e := st.Entries[0]
+				e.TsNs += int64(len(st.Entries)) * 1000
+				e.Line = fmt.Sprintf("L[%s-0-%d]", id, len(st.Entries)) + strings.Repeat("g", pad)
+				st.Entries = append(st.Entries, e)
+			}
+			return &Item{Phase: "giant-block", Kind: "logs", Req: gen.Render(r, "loki-json-values", lc), Single: entries == 1}
+		}
+		before := 0
+		for _, sc := range w.SvcCalls() {
+			if sc.Kind == "samples" {
+				before += sc.Rows
+			}
+		}
+		it0 := mkG("f", 1, 0)
+		failTable.Store("samples_v3")
+		giantRelease.Store(false)
+		giantHold.Store(true)
+		atomic.StoreInt32(&slowLeft, 1)
+		mode.Store("slow-n")
+		var wg sync.WaitGroup
+		wg.Add(1)
+		go func() { defer wg.Done(); send(0, it0) }()
+		dl := time.Now().Add(5 * time.Second)
+		for led.InFlight() == 0 && time.Now().Before(dl) {
+			time.Sleep(time.Millisecond)
+		}
+		const clients, lines = 7, 8
+		for j := 0; j < clients; j++ {
+			wg.Add(1)
+			it := mkG("b", lines, 1<<20)
+			go func(j int) { defer wg.Done(); send(1+j, it) }(j)
+		}
+		dl = time.Now().Add(40 * time.Second)
+		for time.Now().Before(dl) {
+			got := 0
+			for _, sc := range w.SvcCalls() {
+				if sc.Kind == "samples" {
+					got += sc.Rows
+				}
+			}
+			if got >= before+1+clients*lines {
+				break
+			}
+			time.Sleep(5 * time.Millisecond)
+		}
+		giantRelease.Store(true)
+		wg.Wait()
+		giantHold.Store(false)
+		mode.Store("ok")
 	}
 	if cfg.Targeted {
 		// a body of several MiB (one parser portion per stream, four or five of them): the INSERTs carrying a line of
